@@ -206,6 +206,10 @@ static void engine_run(void) {
 				bn_free(a); bn_free(b);
 			}
 			tr_printf("BNRANDMOD-END thrown=%d code=%d\n", thrown, err_get_code() == RLC_OK ? 0 : 1);
+		} else if (strcmp(tok[0], "CTXFILL") == 0 && n >= 2) {
+			/* the second context is storage of the caller's: before its first initialisation it may hold anything
+			 * (the test suite initialises a context that lives, unwritten, on the stack) */
+			if (!ctx_ready[1]) memset(ctxs[1], atoi(tok[1]) & 0xFF, sizeof(ctx_t));
 		} else if (strcmp(tok[0], "CTX") == 0) {
 			int to = atoi(tok[1]) % NCTX;
 			core_set(ctxs[to]);
